@@ -95,6 +95,9 @@ func (data *Data) Deserialize(fr *FrameHeader) error {
 	}
 
 	data.endStream = fr.Flags().Has(FlagEndStream)
+	// Padding() documents "was padded"; a frame that is written again (a
+	// proxy) keeps the PADDED flag and therefore needs its pad section back.
+	data.hasPadding = fr.Flags().Has(FlagPadded)
 	data.b = append(data.b[:0], payload...)
 
 	return nil
